@@ -65,6 +65,8 @@ struct LookInfo {
     announces: Vec<(SocketAddr, Vec<u8>)>,
     endgame_at: Option<u128>,
     any_sent_ok: bool,
+    /// some datagram of the search could not be sent (C02's premise does not hold for it)
+    any_send_failed: bool,
 }
 
 impl Ctx {
@@ -732,7 +734,9 @@ fn check_lookups(c: &mut Ctx, w: &[&str], case: usize, line: usize, st: &mut Sta
     }
     if let (Some((_, _, r)), Some(sid)) = (&delivered, accepted_for) {
         let n = c.last_yields.iter().filter(|(s, _)| *s == sid).count();
-        if n != r.values.len() {
+        // (C02 presupposes that the search's datagrams can be sent: a round whose sends all fail makes the
+        // code give up its outstanding queries and go to the end-game, an answer still on its way is then dropped)
+        if n != r.values.len() && !c.looks[sid].any_send_failed {
             st.fail(case, line, &format!("[C02] an accepted response carried {} peers but the search yielded {n}", r.values.len()));
         }
     }
@@ -752,7 +756,7 @@ fn check_lookups(c: &mut Ctx, w: &[&str], case: usize, line: usize, st: &mut Sta
                     if li.aid.is_empty() { li.aid = aid.clone(); }
                     if g.info_hash.as_ref() != li.ih.as_slice() { st.fail(case, line, "[C03] a search queried for another info-hash"); }
                     li.outstanding.insert(m.transaction_id.clone(), (*dst, now, false));
-                    if *ok { li.any_sent_ok = true; }
+                    if *ok { li.any_sent_ok = true; } else { li.any_send_failed = true; }
                     if m.transaction_id.len() != 8 { st.fail(case, line, "[C19] a query carries a transaction id that is not 8 bytes"); }
                 }
             }
